@@ -1,7 +1,9 @@
 """E2: statement-level control flow graph for one Python function.
 
 Nodes are statements (or the test / iterator expression of compound statements); edges carry labels
-'next', 'true', 'false', 'exc' (exception raised in the source node), 'ret', 'brk', 'cont'.
+'next', 'true', 'false', 'back', 'exc' (exception raised in the source node), 'ret', 'brk', 'cont',
+and 'fexc'/'fret'/'fbrk'/'fcont' (a finally/with-exit copy completed and the pending exception /
+return / break / continue continues outward).
 `finally` suites and `with` exits are duplicated per continuation kind (normal / exception /
 return / break / continue) so that dominance and post-dominance queries are plain graph queries.
 A statement containing `yield` has an 'exc' successor (exception thrown in / generator closed).
@@ -229,7 +231,7 @@ class CFG:
                     memo[kind] = head
                     stmts = final_stmts(kind)
                     out = self._block(stmts, [(head, 'next')], ctx)
-                    self._connect([(p, kind if lab == 'next' else lab) for p, lab in out], outer())
+                    self._connect([(p, 'f' + kind if lab == 'next' else lab) for p, lab in out], outer())
                 return memo[kind]
             return target
         return _Ctx(exc=wrap('exc', ctx.exc), ret=wrap('ret', ctx.ret), brk=wrap('brk', ctx.brk),
@@ -287,7 +289,7 @@ class CFG:
             if labels is None or self.g[n][m]['labels'] & set(labels):
                 yield m
 
-    def reachable(self, src, avoid=(), drop_edges=(), labels_excluded=()):
+    def reachable(self, src, avoid=(), drop_edges=(), labels_excluded=(), edge_ok=None):
         """set of nodes reachable from src (src included) without entering nodes in `avoid`,
         without using edges in drop_edges, and without edges whose labels are all in labels_excluded"""
         avoid = set(avoid)
@@ -305,11 +307,13 @@ class CFG:
                     continue
                 if ex and not (self.g[n][m]['labels'] - ex):
                     continue
+                if edge_ok is not None and not edge_ok(n, m, self.g[n][m]['labels']):
+                    continue
                 if m not in seen:
                     stack.append(m)
         return seen
 
-    def path(self, src, dst, avoid=(), labels_excluded=()):
+    def path(self, src, dst, avoid=(), labels_excluded=(), edge_ok=None):
         """one shortest path src->dst avoiding nodes, as list of node ids, or None"""
         avoid = set(avoid)
         ex = set(labels_excluded)
@@ -328,6 +332,8 @@ class CFG:
                 if m in prev or (m in avoid and m != dst):
                     continue
                 if ex and not (self.g[n][m]['labels'] - ex):
+                    continue
+                if edge_ok is not None and not edge_ok(n, m, self.g[n][m]['labels']):
                     continue
                 prev[m] = n
                 dq.append(m)
